@@ -1,10 +1,10 @@
 package main
 
 import (
-	"time"
 	"fmt"
 	"math"
 	"strings"
+	"time"
 
 	tally "github.com/uber-go/tally/v4"
 	"github.com/uber-go/tally/v4/m3"
